@@ -119,6 +119,17 @@ def _check_fs(state):
             if d is not None:
                 V.append(viol("cubeset:cube%d:%s" % (ci, name), "cube %d %s at %s: library %r, respondents give %r "
                               "(min_base %d)" % (ci, name, d[0], d[1], d[2], mb), output=name))
+    # the same transforms apply to every cube of the set: hide the second text value, reverse the order
+    tr = {"rows_dimension": {"elements": {"1": {"hide": True}}, "order": {"type": "explicit", "element_ids": [2, 0]}}}
+    import copy as _copy
+    cs2 = CubeSet(_copy.deepcopy(resps), [_copy.deepcopy(tr), _copy.deepcopy(tr)], 1000, mb)
+    for ci, (part, pop) in enumerate(zip(cs2.partition_sets[0], ([v for v, _ in people], inside))):
+        want = [sum(1 for v in pop if v == k) for k in (2, 0)]
+        asserted += 1
+        d = first_diff(part.unweighted_counts, want)
+        if d is not None:
+            V.append(viol("cubeset:cube%d:transformed_counts" % ci, "cube %d with rows [hide value 1, order 2,0]: "
+                          "unweighted_counts %r, expected %r" % (ci, list(part.unweighted_counts), want), output="unweighted_counts"))
     ntv = 0 < len(inside) and len(set(inside)) < 3
     return Res(V, ntv, digest(FS, state[1], arr_bytes(parts[1].unweighted_counts)), asserted)
 
